@@ -8,6 +8,7 @@ mod bnb;
 mod sched;
 mod checks;
 mod dd;
+mod dot;
 mod ops;
 mod gap;
 mod examples;
